@@ -406,7 +406,9 @@ def run(rep, tier):   # noqa: F811
 # extensions 2: independence of the process environment and of the call history
 # ======================================================================================================
 ENV_ALPHABET = "a7_"
-ENV_INPUTS = {"pdb": "tests/488d.pdb", "cif": "tests/1ehz-assembly-1.cif"}
+ENV_INPUTS = {"pdb": "tests/488d.pdb", "cif": "tests/1ehz-assembly-1.cif", "adapter": "tests/184D.cif"}
+ENV_TOOL = {"pdb": ("rnapolis.annotator", []), "cif": ("rnapolis.annotator", []),
+            "adapter": ("rnapolis.adapter", ["--external", "tests/184D-fr3d.txt", "--tool", "fr3d"])}
 
 
 def job_env(spec):
@@ -421,7 +423,8 @@ def job_env(spec):
     from symx.engine import Engine
     from symx import bstr as B
     from vlib import frame
-    import rnapolis.annotator as AN
+    import importlib
+    AN = importlib.import_module(ENV_TOOL[kind][0])
     import rnapolis.util as U
     import rnapolis.parser as PR
     logging.disable(logging.CRITICAL)
@@ -430,7 +433,9 @@ def job_env(spec):
     eng = Engine(timeout_ms=10000)
     eng.realize_on_str = True
     from vlib.core import REPO_SRC
-    src = os.path.join(os.path.dirname(REPO_SRC), ENV_INPUTS[kind])
+    root = os.path.dirname(REPO_SRC)
+    src = os.path.join(root, ENV_INPUTS[kind])
+    extra = [os.path.join(root, a) if a.startswith("tests/") else a for a in ENV_TOOL[kind][1]]
     ext = os.path.splitext(src)[1]
     sym = B.bvar(eng, "tmpname", 3, minlen=3, charset=ENV_ALPHABET)
     real_paths = {}
@@ -466,7 +471,7 @@ def job_env(spec):
                 os.unlink(os.path.join(outdir, f))
             o = lambda n: os.path.join(outdir, n)   # noqa: E731
             sys.argv = ["annotator", src, "--csv", o("o.csv"), "--json", o("o.json"), "--bpseq", o("o.bpseq"), "--dot", o("o.dot"), "--pml", o("o.pml"),
-                        "--inter-stem-csv", o("inter.csv"), "--stems-csv", o("stems.csv")] + list(dots)
+                        "--inter-stem-csv", o("inter.csv"), "--stems-csv", o("stems.csv")] + extra + list(dots)
             buf = io.StringIO()
             before = frame.snapshot()
             with contextlib.redirect_stdout(buf):
@@ -478,7 +483,7 @@ def job_env(spec):
     finally:
         U.tempfile, PR.IoAdapterPy, sys.argv = saved
         shutil.rmtree(outdir, ignore_errors=True)
-    res = {"name": f"annotator.main:{kind}:{' '.join(dots) or 'default'}", "paths": len(paths), "exhausted": eng.exhausted, "queries": eng.nq, "solver_s": round(eng.tq, 3),
+    res = {"name": f"{ENV_TOOL[kind][0].split('.')[1]}.main:{kind}:{' '.join(dots) or 'default'}", "paths": len(paths), "exhausted": eng.exhausted, "queries": eng.nq, "solver_s": round(eng.tq, 3),
            "realized": getattr(eng, "realized", 0), "wall_s": round(time.time() - t0, 1), "differs": None, "exception": None, "frame": [], "nfiles": 0}
     outs = []
     for path, out in paths:
@@ -505,13 +510,15 @@ def job_env(spec):
 
 REPLAY_ENV = '''
 import subprocess, tempfile, shutil
-src = os.path.join(os.environ.get("VERIF_REPO_SRC", "/repo/src"), "..", {src!r})
+root = os.path.join(os.environ.get("VERIF_REPO_SRC", "/repo/src"), "..")
+src = os.path.join(root, {src!r})
+extra = [os.path.join(root, a) if a.startswith("tests/") else a for a in {extra!r}]
 runs = []
 for k in range(2):
     d = tempfile.mkdtemp()
     o = lambda n: os.path.join(d, n)
-    cmd = [sys.executable, "-m", "rnapolis.annotator", src, "--csv", o("o.csv"), "--json", o("o.json"), "--bpseq", o("o.bpseq"), "--dot", o("o.dot"), "--pml", o("o.pml"),
-           "--inter-stem-csv", o("inter.csv"), "--stems-csv", o("stems.csv")] + {dots!r}
+    cmd = [sys.executable, "-m", {module!r}, src, "--csv", o("o.csv"), "--json", o("o.json"), "--bpseq", o("o.bpseq"), "--dot", o("o.dot"), "--pml", o("o.pml"),
+           "--inter-stem-csv", o("inter.csv"), "--stems-csv", o("stems.csv")] + extra + {dots!r}
     env = dict(os.environ); env["PYTHONPATH"] = os.environ.get("VERIF_REPO_SRC", "/repo/src")
     r = subprocess.run(cmd, capture_output=True, text=True, env=env, cwd=d)
     runs.append((r.stdout, {{f: open(o(f), "rb").read() for f in sorted(os.listdir(d))}}))
@@ -568,7 +575,7 @@ def run(rep, tier):   # noqa: F811
     from vlib.par import pmap, Crashed
     _run_prev(rep, tier)
     # (a) process environment: the temporary file name is symbolic
-    specs = [("pdb", ()), ("pdb", ("--all-dot-brackets",))]
+    specs = [("pdb", ()), ("pdb", ("--all-dot-brackets",)), ("adapter", ())]
     if tier != "quick":
         specs += [("pdb", ("--extended",)), ("cif", ()), ("cif", ("--extended",)), ("cif", ("--all-dot-brackets",))]
     for sp, r in zip(specs, pmap(job_env, specs)):
@@ -582,9 +589,9 @@ def run(rep, tier):   # noqa: F811
             continue
         if r["differs"]:
             rep.add(discharged=1)
-            rep.violation(Violation("annotator.main:environment", f"{r['name']}: output {r['differs']['output']} depends on the name of the temporary copy of the input "
+            rep.violation(Violation(f"{ENV_TOOL[sp[0]][0].split('.')[1]}.main:environment", f"{r['name']}: output {r['differs']['output']} depends on the name of the temporary copy of the input "
                                     f"(differs for names ...{r['differs']['names'][0]}... and ...{r['differs']['names'][1]}...)",
-                                    REPLAY_ENV.format(src=ENV_INPUTS[sp[0]], dots=list(sp[1])), witness=r["differs"]))
+                                    REPLAY_ENV.format(src=ENV_INPUTS[sp[0]], dots=list(sp[1]), module=ENV_TOOL[sp[0]][0], extra=ENV_TOOL[sp[0]][1]), witness=r["differs"]))
         elif r["exhausted"]:
             rep.add(discharged=1, reachability_witnesses=1)
         else:
@@ -620,9 +627,9 @@ def run(rep, tier):   # noqa: F811
         else:
             rep.add(undecided=1)
             rep.sample({"note": "module-level state changes across a call, but no output difference was reproduced with the candidate histories", "diff": d})
-    rep.add(functions_encoded=["annotator.main / handle_output_arguments (every output option) with util.handle_input_file", "parser.read_3d_structure (frame condition)"],
+    rep.add(functions_encoded=["annotator.main and adapter.main / handle_output_arguments (every output option) with util.handle_input_file", "parser.read_3d_structure (frame condition)"],
             stubs=["tempfile.NamedTemporaryFile -> in-memory file whose name has 3 symbolic characters over 'a7_'", "IoAdapterPy.readFile(name) -> parses the text stored under that name"])
-    rep.cov["bounds"]["environment"] = "annotator.main on tests/488d.pdb (thorough: and tests/1ehz-assembly-1.cif), all output options; temporary-file name symbolic in 3 characters"
+    rep.cov["bounds"]["environment"] = "annotator.main on tests/488d.pdb (thorough: and tests/1ehz-assembly-1.cif), adapter.main on tests/184D.cif + FR3D listing, all output options; temporary-file name symbolic in 3 characters"
     rep.cov["bounds"]["history"] = "PDB files of 3 HETATM lines, 2 residues whose names need the atom-based one-letter detection; module-level mutable state compared on every path"
     rep.assume("history independence is decided through the frame condition (module-level mutable containers of rnapolis.* are unchanged by a call); "
                "state hidden in closures, functools caches or C extensions is outside it")
